@@ -305,6 +305,14 @@ def run_clobber(prog, E=None, prefix="mpq_", rule="R-CLOBBER"):
             lp = [x for x in fl if "ILLlpdata::" in x]
             if lp and "[]" in p[2]:
                 copies.append((b["id"], i, lp[0], e[2], show(e[1])))
+    # the same copy written as a block copy: memcpy / memmove (newobj->...->field, ...)
+    for b, i, c in cp.calls():
+        if (callee(c) or "") in ("memcpy", "memmove") and c[3]:
+            p = apath(c[3][0])
+            if p[0] == "l" and p[1] == newobj:
+                lp = [x for x in fields_of(p[2]) if "ILLlpdata::" in x]
+                if lp:
+                    copies.append((b["id"], i, lp[0], c[4], show(c)))
     n = 0
     for (bid, idx, fld, loc, txt) in copies:
         res.obligations += 1
